@@ -45,7 +45,7 @@ Fam(i) ==
                    c2 |-> Cmd(<<"o2">>, <<"s1">>, <<>>, <<"o3">>, <<>>, FALSE)])
     [] i = 3 -> M([c1 |-> [Cmd(<<"o1", "o2">>, <<"s1">>, <<>>, <<>>, <<>>, FALSE) EXCEPT !.fail = "late"],
                    c2 |-> Cmd(<<"o3">>, <<"o2">>, <<"h">>, <<>>, <<>>, FALSE)])
-    [] i = 4 -> M([c1 |-> Cmd(<<"o1">>, <<"s1">>, <<>>, <<>>, <<>>, FALSE),
+    [] i = 4 -> M([c1 |-> [Cmd(<<"o1">>, <<"s1">>, <<>>, <<>>, <<>>, FALSE) EXCEPT !.fail = "late"],
                    c2 |-> PhonyCmd(<<"al">>, <<"o1">>),
                    c3 |-> Cmd(<<"o3">>, <<"al", "s2">>, <<>>, <<>>, <<>>, FALSE)])
     [] i = 5 -> M([c1 |-> [Cmd(<<"o1">>, <<"s1">>, <<>>, <<>>, <<>>, FALSE) EXCEPT !.fail = "late"],
@@ -99,7 +99,7 @@ MCInit ==
   /\ b = NoBuild /\ mem = EmptyRows /\ epoch = 0
   /\ st = [k \in Keys |-> "idle"] /\ fin = {} /\ sawc = {}
   /\ seen = [c \in {"c1", "c2", "c3"} |-> NoSeen] /\ flast = {} /\ tampered = {}
-  /\ quiet = NotQuiet /\ alldb = TRUE /\ last = NoLast
+  /\ quiet = NotQuiet /\ alldb = "none" /\ last = NoLast
   /\ nb = 0 /\ ne = 0
 
 OutPaths == {p \in MCPaths : ProducerOf(p) # "" /\ ~C(ProducerOf(p)).phony}
@@ -143,6 +143,7 @@ W_select     == ~How("select")
 W_selectfail == ~How("select-fail")
 W_cancelskip == ~How("cancelskip")
 W_alias      == ~How("alias")
+W_aliasskip  == ~How("alias-skip")
 W_update     == ~How("update")
 W_skip       == ~How("skip")
 W_execfail   == ~(last.a = "Exec" /\ last.failed)
